@@ -244,7 +244,13 @@ impl<'a> ListStylist<'a> {
                     self.can_attach = false;
                     if let Some(nl) = self.keep_linebreak {
                         if newline_cnt >= 2 && !self.items.is_empty() {
-                            self.items.push(Item::Linebreak((newline_cnt - 1).min(nl)));
+                            let blank_lines = (newline_cnt - 1).min(nl);
+                            if let Some(Item::Linebreak(n)) = self.items.last_mut() {
+                                // Blank lines before and after a separator add up. Cap the sum.
+                                *n = (*n + blank_lines).min(nl);
+                            } else {
+                                self.items.push(Item::Linebreak(blank_lines));
+                            }
                         }
                     }
                 }
